@@ -63,6 +63,8 @@ func (x *c16Set) render() string {
 //	list:    pipe | start | rc (no output, bad exit) | trunc (N lines then read error, bad exit) | late (full output, bad exit)
 //	restore: pipe | start | line (process dies when it reaches Line; earlier lines applied, all writes accepted)
 //	         | write (the write of Line fails with EPIPE; earlier lines applied; process exits non-zero) | late (all applied, bad exit)
+//	         | wlost (the write of Line fails with EPIPE because the process died earlier: of the lines the pipe
+//	           had accepted only the first N were executed, the rest was merely buffered and is lost)
 //	destroy: early (nothing happens, error) | late (destroyed, error reported)
 type c16Fault struct {
 	Sig  string `json:"sig"`
@@ -473,9 +475,16 @@ func (w *c16Stdin) Write(p []byte) (int, error) {
 		if w.c.rec != nil {
 			w.c.rec.Lines = append(w.c.rec.Lines, c16Norm(line))
 		}
-		if w.c.mode() == "write" && c16Norm(line) == w.c.fault.Line {
+		if (w.c.mode() == "write" || w.c.mode() == "wlost") && c16Norm(line) == w.c.fault.Line {
 			w.c.fire()
 			w.broken = true
+			if w.c.mode() == "wlost" {
+				// the child died earlier: what the pipe had accepted so far was only buffered and
+				// all but the first N lines are lost; the broken pipe surfaces only now
+				if w.c.fault.N < len(w.lines) {
+					w.lines = w.lines[:w.c.fault.N]
+				}
+			}
 			return 0, io.ErrClosedPipe
 		}
 		w.lines = append(w.lines, line)
@@ -583,6 +592,9 @@ func c16FaultPoints(r *c16RecCmd) []c16Fault {
 				f("line", l, 0)
 			}
 			f("write", l, 0)
+			// same broken pipe, but the child had died before executing anything it was sent (offered
+			// for every line: which set is written first is not under the harness's control)
+			f("wlost", l, 0)
 		}
 		f("late", "", 0)
 	case "destroy":
